@@ -47,7 +47,7 @@ def run_case(c):
         shutil.rmtree(d, ignore_errors=True)
     return lines, results, fails
 
-todo = [c for c in CASES if not args or c['id'] in args]
+todo = [c for c in CASES if (not args and c['kind'] != 'known-alarm') or c['id'] in args]
 fails = 0; results = []
 with ThreadPoolExecutor(max_workers=jobs) as ex:
     for lines, res, f in ex.map(run_case, todo):
